@@ -661,26 +661,28 @@ Proof.
     destruct dt as [[]| | | | | | | |]; try discriminate Hp; vm_compute; lia.
   - destruct p; [|discriminate]. destruct s; [|discriminate]. vm_compute. lia.
   - destruct p; [|discriminate]. destruct s; [|discriminate]. rewrite print_list, !app_length.
-    specialize (IH Hp). simpl rty_size. lia.
+    specialize (IH Hp). simpl rty_size. change (length w_var) with 3%nat. change (length p_star) with 3%nat. lia.
   - destruct p; [|discriminate]. destruct s; [|discriminate]. rewrite print_reg, !app_length.
-    apply andb_true_iff in Hp as [_ Hp]. specialize (IH Hp). simpl rty_size. simpl (length p_star). lia.
+    apply andb_true_iff in Hp as [_ Hp]. specialize (IH Hp). simpl rty_size. change (length p_star) with 3%nat. lia.
   - destruct p; [|discriminate]. destruct s; [|discriminate]. rewrite print_opt. specialize (IH Hp).
-    destruct (is_listlike t'); simpl rty_size; [rewrite !app_length|]; simpl length; try rewrite !app_length; simpl length; lia.
+    destruct (is_listlike t'); simpl rty_size.
+    + rewrite app_length. change (length w_option) with 6%nat. cbn [length]. rewrite app_length. cbn [length]. lia.
+    + cbn [length]. lia.
   - destruct s; [|destruct p; discriminate Hp].
     apply andb_true_iff in Hp as [Hp Hpar]. apply andb_true_iff in Hp as [Hpl Hks].
     pose proof (sum_sizes_le l IH Hpl) as Hsum. simpl rty_size.
     destruct p as [|[k v] p'].
     + destruct ks as [ks|].
       * apply andb_true_iff in Hks as [Hl _]. apply Nat.eqb_eq in Hl.
-        rewrite print_rec. simpl length. rewrite app_length. simpl length.
+        rewrite print_rec. cbn [length]. rewrite app_length. cbn [length].
         pose proof (sep_concat_length p_comma (keyed ks (map type_tostring l))).
         pose proof (keyed_lengths ks l Hl). lia.
-      * rewrite print_tuple. simpl length. rewrite app_length. simpl length.
+      * rewrite print_tuple. cbn [length]. rewrite app_length. cbn [length].
         pose proof (sep_concat_length p_comma (map type_tostring l)). lia.
     + destruct v as [| | | |w| |]; try discriminate Hpar. destruct p'; [|discriminate Hpar].
       apply andb_true_iff in Hpar as [Hpar _]. apply andb_true_iff in Hpar as [Hpar Hres].
       apply andb_true_iff in Hpar as [Hk Hn]. apply bytes_eqb_eq in Hk. subst k. apply negb_true_iff in Hres.
-      rewrite (print_named w ks l Hn Hres). rewrite app_length. simpl length. rewrite app_length. simpl length.
+      rewrite (print_named w ks l Hn Hres). rewrite app_length. cbn [length]. rewrite app_length. cbn [length].
       destruct ks as [ks|].
       * apply andb_true_iff in Hks as [Hl _]. apply Nat.eqb_eq in Hl.
         pose proof (sep_concat_length p_comma (keyed ks (map type_tostring l))).
@@ -688,7 +690,7 @@ Proof.
       * pose proof (sep_concat_length p_comma (map type_tostring l)). lia.
   - destruct p; [|discriminate]. destruct s; [|discriminate]. rewrite print_union.
     pose proof (sum_sizes_le l IH Hp) as Hsum. simpl rty_size.
-    rewrite app_length. simpl length. rewrite app_length. simpl length.
+    rewrite app_length. change (length w_union) with 5%nat. cbn [length]. rewrite app_length. cbn [length].
     pose proof (sep_concat_length p_comma (map type_tostring l)). lia.
 Qed.
 
